@@ -14,10 +14,13 @@ use shared::query as kq;
 pub const DEF: PropDef = PropDef {
     id: "C16",
     level: "exploration",
-    rule: "totality: (i) every string of <=3 (thorough <=4) tokens over a 34-token alphabet (keywords, braces, variables, IRIs, prefixed names, literals incl. multi-byte, triple quotes, << >>, ^^, @, backslash, #, bare multi-byte char, newline) joined with and without spaces; (ii) every single mutation (delete char at i / insert or substitute each of 14 special chars incl. multi-byte at i / truncate at i) of a seed corpus of ~60 requests covering SELECT forms, all six update forms and the RULE / REGISTER / RETRIEVE / ML.PREDICT extensions, and every double mutation of the shortest seeds (thorough); each input goes through parse_combined_query, parse_combined_query_with_options(_, true), parse_sparql_query and parse_group_graph_pattern under catch_unwind: never a panic, and Ok from the three whole-request parsers implies nothing but whitespace/comments remains. Literal escape matrix: every escape kind (\\t \\n \\\" \\\\ \\' \\b \\f \\r \\uXXXX \\UXXXXXXXX) followed by every kind of next character (closing quote, ASCII, multi-byte, another escape) after three prefixes, as triple object, FILTER operand and VALUES term: accepted, fully consumed, and the token handed on verbatim. Faithfulness: every query of the C01 generator list and every update of the C03 alphabet, printed in 6 layouts (canonical, minimal whitespace, newlines+comments, lower-case and mixed-case keywords, ;/, abbreviations with optional dots omitted), must parse, and the parsed tree converted to the reference AST must equal the generated AST (nesting, pattern order, lexical terms, filter tree, modifiers) for every layout. Non-trivial = mutation/token inputs that are accepted by at least one parser, and every faithfulness case; distinct by input text.",
+    rule: "totality: (i) every string of <=3 (thorough <=4) tokens over a 34-token alphabet (keywords, braces, variables, IRIs, prefixed names, literals incl. multi-byte, triple quotes, << >>, ^^, @, backslash, #, bare multi-byte char, newline) joined with and without spaces; (ii) every single mutation (delete char at i / insert or substitute each of 14 special chars incl. multi-byte at i / truncate at i) of a seed corpus of ~60 requests covering SELECT forms, all six update forms and the RULE / REGISTER / RETRIEVE / ML.PREDICT extensions, and every double mutation of the shortest seeds (thorough); each input goes through parse_combined_query, parse_combined_query_with_options(_, true), parse_sparql_query and parse_group_graph_pattern under catch_unwind: never a panic, and Ok from the three whole-request parsers implies nothing but whitespace/comments remains. Literal escape matrix: every escape kind (\\t \\n \\\" \\\\ \\' \\b \\f \\r \\uXXXX \\UXXXXXXXX) followed by every kind of next character (closing quote, ASCII, multi-byte, another escape) after three prefixes, as triple object, FILTER operand and VALUES term: accepted, fully consumed, and the token handed on verbatim. Faithfulness: every query of the C01 generator list and every update of the C03 alphabet, printed in 6 layouts (canonical, minimal whitespace, newlines+comments, lower-case and mixed-case keywords, ;/, abbreviations with optional dots omitted), must parse, and the parsed tree converted to the reference AST must equal the generated AST (nesting, pattern order, lexical terms, filter tree, modifiers) for every layout. Round 3 additions. Totality: the token alphabet is extended by 11 tokens ($x % | [ ] = ex:a%41 ex:a\\.b a && !); ~35 further seeds cover the grammars no seed reached (MODEL / NEURAL RELATION / TRAIN NEURAL RELATION with DATA and QUERY, PROB hybrid incl. auto:cost, RSP rules, window specs with PT durations / STEP / REPORT / TICK / WITH POLICY steal|wait|timeout, NOT atoms, RULE+ML.PREDICT, RETRIEVE EVERY LATENT, FILTER functions, bare-arithmetic FILTER, $-variables, %HH and backslash escapes in prefixed names, WHERE omitted, FROM with prefixed names, aggregates without wrapper / alias, ORDER BY closed by '}', trailing ';' before . } GRAPH, ';' ',' inside quad blocks, a dot after FILTER); every seed (old and new) additionally gets the single-character mutations with 8 more special characters (% $ | [ ] = , ;) and TOKEN-LEVEL mutations: a harness-side lexer splits the seed into tokens and, at every token boundary, each of the ~75 tokens of a vocabulary (every keyword of the SPARQL and extension grammars, brackets, punctuation, a variable, an IRI, a literal, a multi-byte char, a junk token) is inserted, and every token is deleted, duplicated and swapped with its successor (thorough: also every PAIR of token-level mutations of the four shortest seeds and of one seed per extension grammar). Faithfulness: five more text variants of every generated query and update, derived from the canonical print by token rewriting - Glued (no whitespace wherever two tokens cannot merge: SELECT?s{?s<http://e/p>?o}), NoWhere (WHERE keyword omitted in SELECT and sub-SELECT), Prefixed (a PREFIX prologue, every IRI as a prefixed name, in every position incl. FROM / GRAPH / VALUES / FILTER; the parsed tree is compared after expanding the names with the prologue the parser returned), TrailSemi (a ';' after every property list, before '.' and before '}'), Dollar ($ sigil: tree must be that of the ?-text modulo the sigil) - plus ';' ',' abbreviations inside update quad blocks, extra updates with shared subjects, and extra queries whose sub-SELECT ends in ORDER BY. Operator precedence: every binary tree of <= 3 operators over && and || on four comparison atoms (plain, first / last atom negated, whole negated), printed with only the parentheses the grammar requires (a || b && c, (a || b) && c, a && b && c): the parsed filter must equal the generated one modulo associativity of chains of one operator (both sides flattened). Term matrix: besides the verbatim-token clause, the whole tree of each matrix request is compared with the tree built by hand from the request shape (token in the right position, both occurrences, nothing else). Forms: hand-written requests for constructs the generator AST cannot print (FILTER functions, bare arithmetic with precedence and left-associativity, aggregates without wrapper/alias, 'a', prefixed FROM, ';' before GRAPH, ORDER BY closed by '}', $-variables, %HH / backslash local names, quad-block abbreviations, WHERE omitted, multi-column VALUES with UNDEF) in canonical / lower-case / glued spelling against hand-built trees. Report-only (counters, no verdict): a junk token inserted at every token boundary of every accepted seed, counting the inputs that are still accepted with an identical tree (text the parser skipped). Non-trivial = mutation/token inputs that are accepted by at least one parser, and every faithfulness case; distinct by input text.",
     assumptions: &[
         "nesting deeper than the generator produces (stack exhaustion) is outside the explored space",
         "tree comparison is modulo the two normalisations the grammar itself makes unobservable: adjacent triples blocks merge, and a braced group with a single non-FILTER/BIND element is the element",
+        "the clause 'Ok implies nothing but whitespace/comments remains' cannot fail for the three whole-request parsers as they are written today (they return Err on a non-empty remainder); it is kept as a guard against a change of that convention. Text that is skipped INSIDE an accepted request (e.g. after the OUTPUT block of a MODEL declaration) is only counted (junk_token_ignored_same_tree): the statement's 'whole input was consumed' does not fix whether that is a violation",
+        "chains of one logical operator are compared modulo associativity (SPARQL's grammar makes them flat lists); precedence between && and || and the scope of ! are compared exactly",
+        "keyword-case independence is demanded for the SPARQL fragment only; the extension grammars (RULE, REGISTER, MODEL, ...) match their keywords case-sensitively and are exercised for totality, not faithfulness",
     ],
     run,
     replay,
@@ -494,26 +497,67 @@ fn record_totality(out: &mut ShardOut, ctx: &Ctx, family: &str, input: &str) {
     for (sym, detail) in fails {
         let (symptom, parser) = sym.split_once(':').unwrap_or((sym, ""));
         let multibyte = !input.is_ascii();
-        let tags = vec![format!("family={}", family), format!("parser={}", parser), format!("multibyte={}", multibyte)];
+        let mut tags = vec![format!("family={}", family), format!("parser={}", parser), format!("multibyte={}", multibyte)];
+        tags.extend(input_tags(input));
         out.fail(json!({"family": family, "input": input}), symptom, detail, tags);
     }
 }
 
+/// structural facts about a request text (which extension grammars it enters, keyword order inside
+/// an ML.PREDICT INPUT block), used to scope findings narrowly
+fn input_tags(input: &str) -> Vec<String> {
+    let mut t: Vec<String> = Vec::new();
+    for (kw, tag) in [
+        ("ML.PREDICT", "has_ml_predict"),
+        ("MODEL", "has_model"),
+        ("NEURAL", "has_neural"),
+        ("TRAIN", "has_train"),
+        ("RULE", "has_rule"),
+        ("REGISTER", "has_register"),
+        ("RETRIEVE", "has_retrieve"),
+        ("PROB", "has_prob"),
+    ] {
+        if input.contains(kw) {
+            t.push(tag.to_string());
+        }
+    }
+    if let Some(p) = input.find("ML.PREDICT") {
+        if let Some(i) = input[p..].find("INPUT") {
+            let tail = &input[p + i..];
+            if let (Some(w), Some(s)) = (tail.find("WHERE"), tail.find("SELECT")) {
+                if w < s {
+                    t.push("ml_predict_input_where_precedes_select".to_string());
+                }
+            }
+        }
+    }
+    t
+}
+
 pub fn mutations(seed: &str, f: &mut dyn FnMut(String)) {
+    mutations_with(seed, &SPECIALS, true, f)
+}
+
+/// `structural` = also truncate at i / delete the char at i (independent of the special characters)
+fn mutations_with(seed: &str, specials: &[&str], structural: bool, f: &mut dyn FnMut(String)) {
     let idx: Vec<usize> = seed.char_indices().map(|(i, _)| i).chain(std::iter::once(seed.len())).collect();
     for (k, &i) in idx.iter().enumerate() {
         // truncate at i
-        f(seed[..i].to_string());
+        if structural {
+            f(seed[..i].to_string());
+        }
         // insert each special at i
-        for sp in SPECIALS {
+        for sp in specials {
             f(format!("{}{}{}", &seed[..i], sp, &seed[i..]));
         }
         if k + 1 < idx.len() {
             let j = idx[k + 1];
             // delete char at i
-            f(format!("{}{}", &seed[..i], &seed[j..]));
+            if structural {
+                f(format!("{}{}", &seed[..i], &seed[j..]));
+            }
             // substitute
-            for sp in SPECIALS {
+            for sp in specials {
                 f(format!("{}{}{}", &seed[..i], sp, &seed[j..]));
             }
         }
@@ -608,8 +652,8 @@ pub fn escape_matrix() -> Vec<(String, String)> {
 /// fraction / exponent, booleans, language-tagged and datatyped literals, single-, triple-quoted
 /// literals, blank nodes, prefixed names with dots / empty prefix / empty local part, IRIs with a
 /// fragment or a numeric escape, `a`), in every position where the grammar allows it. Each entry is
-/// (request text, token that must appear verbatim in the tree).
-pub fn term_matrix() -> Vec<(String, String)> {
+/// (request text, token that must appear verbatim in the tree, shape of the request).
+pub fn term_cases() -> Vec<TermCase> {
     let prologue = "PREFIX ex: <http://e/> PREFIX : <http://d/> ";
     let objects = [
         "1",
@@ -654,30 +698,36 @@ pub fn term_matrix() -> Vec<(String, String)> {
     ];
     let subjects = ["_:b1", "ex:a", ":a", "ex:a.b", "<http://e/a#frag>", "<urn:x:y>", "<< <http://e/a> <http://e/p> <http://e/b> >>"];
     let predicates = ["a", "ex:p", ":p", "ex:p.q", "<http://e/p#frag>", "<urn:p>"];
-    let mut out = Vec::new();
+    let mut out: Vec<TermCase> = Vec::new();
+    let mut push = |text: String, token: &str, shape: TShape| out.push(TermCase { text, token: token.to_string(), shape });
     for o in objects {
-        out.push((format!("{}SELECT ?s WHERE {{ ?s ex:p {} . }}", prologue, o), o.to_string()));
-        out.push((format!("{}SELECT ?s WHERE {{ ?s ex:p {} }}", prologue, o), o.to_string()));
-        out.push((format!("{}SELECT ?s WHERE {{ ?s ex:p {} ; ex:q ?z , {} . }}", prologue, o, o), o.to_string()));
+        push(format!("{}SELECT ?s WHERE {{ ?s ex:p {} . }}", prologue, o), o, TShape::ObjDot);
+        push(format!("{}SELECT ?s WHERE {{ ?s ex:p {} }}", prologue, o), o, TShape::ObjNoDot);
+        push(format!("{}SELECT ?s WHERE {{ ?s ex:p {} ; ex:q ?z , {} . }}", prologue, o, o), o, TShape::ObjAbbrev);
         if !o.starts_with("_:") && !o.starts_with("<<") {
-            out.push((format!("{}SELECT ?s WHERE {{ VALUES ?o {{ {} }} ?s ex:p ?o . }}", prologue, o), o.to_string()));
-            out.push((format!("{}SELECT ?s WHERE {{ ?s ex:p ?o . FILTER(?o = {}) }}", prologue, o), o.to_string()));
+            push(format!("{}SELECT ?s WHERE {{ VALUES ?o {{ {} }} ?s ex:p ?o . }}", prologue, o), o, TShape::ValuesOne);
+            push(format!("{}SELECT ?s WHERE {{ ?s ex:p ?o . FILTER(?o = {}) }}", prologue, o), o, TShape::FilterEq);
         }
         if !o.starts_with("<<") {
-            out.push((format!("{}INSERT DATA {{ ex:s ex:p {} . }}", prologue, o), o.to_string()));
+            push(format!("{}INSERT DATA {{ ex:s ex:p {} . }}", prologue, o), o, TShape::InsertData);
         }
     }
     for t in subjects {
-        out.push((format!("{}SELECT ?o WHERE {{ {} ex:p ?o . }}", prologue, t), t.to_string()));
+        push(format!("{}SELECT ?o WHERE {{ {} ex:p ?o . }}", prologue, t), t, TShape::Subj);
     }
     for t in predicates {
-        out.push((format!("{}SELECT ?o WHERE {{ ?s {} ?o . }}", prologue, t), t.to_string()));
-        out.push((format!("{}SELECT ?o WHERE {{ GRAPH ex:g {{ ?s {} ?o }} }}", prologue, t), t.to_string()));
+        push(format!("{}SELECT ?o WHERE {{ ?s {} ?o . }}", prologue, t), t, TShape::Pred);
+        push(format!("{}SELECT ?o WHERE {{ GRAPH ex:g {{ ?s {} ?o }} }}", prologue, t), t, TShape::PredInGraph);
     }
     for gname in ["ex:g", ":g", "<http://e/g#1>", "?g"] {
-        out.push((format!("{}SELECT ?o FROM <http://e/g1> FROM NAMED <http://e/g2> WHERE {{ GRAPH {} {{ ?s ex:p ?o }} }}", prologue, gname), gname.to_string()));
+        push(format!("{}SELECT ?o FROM <http://e/g1> FROM NAMED <http://e/g2> WHERE {{ GRAPH {} {{ ?s ex:p ?o }} }}", prologue, gname), gname, TShape::GraphName);
     }
     out
+}
+
+/// (request text, token that must appear verbatim in the tree)
+pub fn term_matrix() -> Vec<(String, String)> {
+    term_cases().into_iter().map(|c| (c.text, c.token)).collect()
 }
 
 /// Err((symptom, detail)) when a valid term token is not accepted verbatim by parse_combined_query
@@ -746,12 +796,985 @@ fn update_is_syntactically_valid(u: &Update) -> bool {
     }
 }
 
+// ---------------------------------------------------------------------------------------
+// round 3, totality: extended alphabets, seeds of the extension grammars, token-level mutations
+// ---------------------------------------------------------------------------------------
+
+/// tokens added to the token-string alphabet of C16 (C17 keeps using `TOKENS`)
+pub const EXTRA_TOKENS: [&str; 11] = ["$x", "%", "|", "[", "]", "=", "ex:a%41", "ex:a\\.b", "a", "&&", "!"];
+
+fn all_tokens() -> Vec<&'static str> {
+    TOKENS.iter().chain(EXTRA_TOKENS.iter()).copied().collect()
+}
+
+/// special characters added to the single-character mutations of C16
+pub const EXTRA_SPECIALS: [&str; 8] = ["%", "$", "|", "[", "]", "=", ",", ";"];
+
+/// vocabulary of the token-level mutations: every keyword of the SPARQL and extension grammars,
+/// brackets, punctuation, one term of each kind, a multi-byte character and a junk token
+pub const VOCAB: [&str; 76] = [
+    "SELECT", "WHERE", "INPUT", "OUTPUT", "MODEL", "FILTER", "GRAPH", "UNION", "INSERT", "DELETE", "DATA", "FROM", "NAMED", "WINDOW", "ON", "RULE", "PROB", "CONSTRUCT", "NOT", "REGISTER",
+    "RETRIEVE", "VALUES", "BIND", "AS", "ORDER", "BY", "GROUP", "LIMIT", "DISTINCT", "PREFIX", "ML.PREDICT", "NEURAL", "RELATION", "TRAIN", "USING", "ARCH", "HIDDEN", "FEATURES", "LABEL",
+    "TARGET", "QUERY", "STEP", "WITH", "POLICY", "UNDEF", "RSTREAM", "STREAM", "REPORT", "TICK", ":-", "{", "}", "(", ")", "[", "]", ",", ".", ";", "\"", "?x", "<http://e/a>", "\"lit\"", "é",
+    "@@", "a", "*", "=", "&&", "||", "!", "<<", ">>", "1", "#", "ex:a",
+];
+
+/// Seeds for the grammars and branches that no seed of `seed_corpus` enters (audit F). Used by C16 only.
+pub fn extra_seeds() -> Vec<String> {
+    let mut v: Vec<String> = Vec::new();
+    // neural declarations
+    v.push("PREFIX ex: <http://e/>\nMODEL \"m\" {\n  ARCH MLP { HIDDEN [16, 8] }\n  OUTPUT EXCLUSIVE { \"A\", \"B\", \"C\" }\n}\nNEURAL RELATION ex:pred USING MODEL \"m\" {\n  INPUT { ?s ex:x0 ?x0 . ?s ex:x1 ?x1 . }\n  FEATURES { ?x0, ?x1 }\n}\nML.PREDICT(MODEL \"m\", INPUT { SELECT ?s ?x0 WHERE { ?s ex:x0 ?x0 . } }, OUTPUT ?l)".into());
+    v.push("MODEL \"b\" { ARCH MLP { HIDDEN [4] } OUTPUT BINARY { \"yes\" } } SELECT ?s WHERE { ?s <http://e/p> ?o }".into());
+    v.push("MODEL \"m\" { ARCH MLP { HIDDEN [8] } OUTPUT EXCLUSIVE { \"A\", \"B\" } }".into());
+    v.push("NEURAL RELATION ex:pred USING MODEL \"m\" { INPUT { ?s ex:x0 ?x0 } FEATURES { ?x0 } }".into());
+    v.push("TRAIN NEURAL RELATION ex:pred {\n  DATA { ?s ex:label ?l . }\n  LABEL ?l\n  TARGET { ?s ex:pred ?l }\n  LOSS cross_entropy\n  OPTIMIZER adam\n  LEARNING_RATE 0.001\n  EPOCHS 5\n  BATCH_SIZE 2\n  SAVE_TO \"m.bin\"\n}".into());
+    v.push("TRAIN NEURAL RELATION ex:pred {\n  QUERY { SELECT ?s ?x ?l WHERE { ?s ex:x ?x . ?s ex:label ?l . } }\n  LABEL ?l\n  TARGET { ?s ex:pred ?l }\n  LOSS mse\n  OPTIMIZER sgd\n  LEARNING_RATE 0.5\n  EPOCHS 1\n  BATCH_SIZE 1\n}".into());
+    // probabilistic rules: hybrid policy, cost ratio, overrides
+    v.push("RULE :H PROB(provenance=hybrid, threshold=auto:cost(fp=2,fn=8), k_initial=4) :- CONSTRUCT { ?x <http://e/r> <http://e/yes> } WHERE { ?x <http://e/i> <http://e/yes> } .".into());
+    v.push("RULE :H PROB(provenance=hybrid, threshold=0.7, band_epsilon=0.01, k_initial=4, k_max=32, k_growth=2, topk_budget_ms=10, sdd_budget_ms=100, node_budget=50000) :- CONSTRUCT { ?x <http://e/r> <http://e/yes> } WHERE { ?x <http://e/i> <http://e/yes> }".into());
+    v.push("RULE :M PROB(provenance=minmax, threshold=0.3) :- CONSTRUCT { ?x :r ?z . } WHERE { ?x :r ?y . ?y :r ?z . }".into());
+    // negation, RSP rule, rule followed by ML.PREDICT
+    v.push("RULE :N :- CONSTRUCT { ?x :ok ?y . } WHERE { ?x :r ?y . NOT ?y :bad ?x . }".into());
+    v.push("RULE :W :- RSTREAM FROM NAMED WINDOW :w ON :s [SLIDING PT10M STEP PT1M REPORT ON_WINDOW_CLOSE TICK TIME_DRIVEN] WITH POLICY (timeout=5s, fallback=drop) CONSTRUCT { ?s :alert true . } WHERE { ?s :t ?v . }".into());
+    v.push("RULE :R :- CONSTRUCT { ?x :p ?y . } WHERE { ?x :r ?y . } ML.PREDICT( MODEL \"m\", INPUT { SELECT ?x WHERE { ?x :r ?y } }, OUTPUT ?y )".into());
+    // window specifications and policies
+    v.push("REGISTER DSTREAM <http://out/s> AS SELECT ?s FROM NAMED WINDOW :w ON <http://e/stream> [TUMBLING PT5S REPORT NON_EMPTY_CONTENT TICK TUPLE_DRIVEN] WITH POLICY steal FROM NAMED WINDOW :w2 ON ?s2 [RANGE 10 STEP 2] WITH POLICY wait WHERE { WINDOW :w { ?s a <http://e/T> . } WINDOW :w2 { ?s <http://e/p> ?o } }".into());
+    v.push("REGISTER RSTREAM <http://out/s> AS SELECT ?s FROM NAMED WINDOW :w ON :st [RANGE PT1H STEP PT30M REPORT PERIODIC] WITH POLICY (timeout=500ms, fallback=steal) WHERE { WINDOW :w { ?s :p ?o } FILTER(?o > 1) }".into());
+    v.push("RETRIEVE EVERY LATENT STREAM ?s FROM <http://my.org/catalog> WITH { ?s a :Stream ; :rate ?r . ?s :x \"lit\" . }".into());
+    // SPARQL forms
+    v.push("SELECT ?t WHERE { ?t <http://e/p> ?o . FILTER(isTRIPLE(?t)) }".into());
+    v.push("SELECT ?t WHERE { ?t <http://e/p> ?o . FILTER(TRIPLE(?s, <http://e/p>, \"x\")) FILTER(SUBJECT(<< ?s <http://e/p> ?o >>)) FILTER(!isTRIPLE(?o) && (PREDICATE(?t) || OBJECT(?t))) }".into());
+    v.push("SELECT $s WHERE { $s <http://e/p> $o }".into());
+    v.push("PREFIX ex: <http://e/> SELECT ?s WHERE { ?s ex:a%41 ex:a\\.b ; ex:p\\~q ?o }".into());
+    v.push("SELECT ?s { ?s <http://e/p> ?o }".into());
+    v.push("PREFIX ex: <http://e/> SELECT ?s FROM ex:g1 FROM NAMED ex:g2 WHERE { GRAPH ex:g2 { ?s a ex:T } }".into());
+    v.push("SELECT ?s SUM(?v) (MAX(?v) AS ?m) MIN(?v) AS ?lo WHERE { ?s <http://e/q> ?v } GROUP BY ?s".into());
+    v.push("SELECT ?s WHERE { { SELECT ?s ?o WHERE { ?s <http://e/p> ?o } ORDER BY DESC(?o) ?s } }".into());
+    v.push("SELECT ?s WHERE { ?s <http://e/p> ?o ; . ?o <http://e/p> ?z ; }".into());
+    v.push("SELECT ?s WHERE { ?s <http://e/p> ?o ; GRAPH <http://e/g1> { ?s <http://e/p> ?z ; } }".into());
+    v.push("SELECT ?s WHERE { { ?s <http://e/p> ?o ; } UNION { ?s <http://e/q> ?o } }".into());
+    v.push("INSERT DATA { <http://e/a> <http://e/p> <http://e/b> , <http://e/c> ; <http://e/q> \"1\" . GRAPH <http://e/g1> { <http://e/a> <http://e/p> <http://e/b> ; <http://e/q> \"2\" , \"3\" } }".into());
+    v.push("DELETE { ?s <http://e/p> ?o ; <http://e/q> ?v } INSERT { GRAPH ?g { ?s <http://e/p> ?o , ?v } } WHERE { GRAPH ?g { ?s <http://e/p> ?o ; <http://e/q> ?v } }".into());
+    v.push("SELECT ?s WHERE { ?s <http://e/q> ?v . FILTER(?v) FILTER(?v + 1 * 2) }".into());
+    v.push("SELECT ?s WHERE { ?s <http://e/q> ?v . FILTER(?v > 1 && ?v < 5 || ?v = 9 && !(?v = 3)) }".into());
+    v.push("SELECT ?s WHERE { ?s <http://e/q> ?v . FILTER(?v > 1) . ?s <http://e/p> ?o }".into());
+    v.push("SELECT?s{?s<http://e/p>?o.?o<http://e/q>\"1\"}LIMIT 2".into());
+    v.push("SELECT ?s WHERE { VALUES (?s ?v) { (<http://e/a> \"1\") (UNDEF 2.5) } BIND(CONCAT(?v, \"k\") AS ?n) }".into());
+    v
+}
+
+/// Harness-side lexer: byte spans of the tokens of a request text (quoted literals, IRIs, comments
+/// and words are one token each; everything else is single punctuation). It only decides WHERE the
+/// token-level mutations are placed, so its precision is irrelevant for soundness.
+pub fn lex_spans(s: &str) -> Vec<(usize, usize)> {
+    let n = s.len();
+    let mut out = Vec::new();
+    let mut i = 0;
+    let word = |c: char| c.is_alphanumeric() || matches!(c, '_' | '?' | '$' | ':' | '-' | '%' | '\\' | '@' | '^');
+    while i < n {
+        let c = s[i..].chars().next().unwrap();
+        if c.is_whitespace() {
+            i += c.len_utf8();
+            continue;
+        }
+        let start = i;
+        if c == '#' {
+            let end = s[i..].find(['\n', '\r']).map_or(n, |k| i + k);
+            out.push((start, end));
+            i = end;
+            continue;
+        }
+        if c == '"' || c == '\'' {
+            let triple = s[i..].starts_with(&c.to_string().repeat(3));
+            let dl = if triple { 3 } else { 1 };
+            let delim = c.to_string().repeat(dl);
+            let mut j = i + dl;
+            let mut end = n;
+            while j < n {
+                if s[j..].starts_with(&delim) {
+                    end = j + dl;
+                    break;
+                }
+                let cj = s[j..].chars().next().unwrap();
+                if cj == '\\' {
+                    j += 1;
+                    if j < n {
+                        j += s[j..].chars().next().unwrap().len_utf8();
+                    }
+                    continue;
+                }
+                if !triple && (cj == '\n' || cj == '\r') {
+                    end = j;
+                    break;
+                }
+                j += cj.len_utf8();
+            }
+            let end = end.min(n).max(start + 1);
+            out.push((start, end));
+            i = end;
+            continue;
+        }
+        if c == '<' {
+            // an IRI if a '>' comes before any whitespace or '<'
+            let rest = &s[i + 1..];
+            if let Some(k) = rest.find(|x: char| x == '>' || x == '<' || x.is_whitespace()) {
+                if rest[k..].starts_with('>') && k > 0 {
+                    out.push((start, i + 1 + k + 1));
+                    i = i + 1 + k + 1;
+                    continue;
+                }
+            }
+        }
+        if word(c) {
+            let mut j = i;
+            while j < n {
+                let cj = s[j..].chars().next().unwrap();
+                if word(cj) {
+                    j += cj.len_utf8();
+                } else if cj == '.' && s[j + 1..].chars().next().is_some_and(|x| x.is_alphanumeric()) && j > i {
+                    j += 1;
+                } else {
+                    break;
+                }
+            }
+            out.push((start, j));
+            i = j;
+            continue;
+        }
+        let two = ["<<", ">>", "&&", "||", "!=", "<=", ">="];
+        if let Some(t) = two.iter().find(|t| s[i..].starts_with(**t)) {
+            out.push((start, i + t.len()));
+            i += t.len();
+            continue;
+        }
+        out.push((start, i + c.len_utf8()));
+        i += c.len_utf8();
+    }
+    out
+}
+
+/// Token-level mutations of a seed: insert each vocabulary token at each token boundary, delete,
+/// duplicate each token, swap each pair of adjacent tokens (whitespace between tokens is kept).
+pub fn token_mutations(seed: &str, f: &mut dyn FnMut(String)) {
+    let spans = lex_spans(seed);
+    let mut bounds: Vec<usize> = spans.iter().map(|(a, _)| *a).collect();
+    bounds.push(seed.len());
+    for &pos in &bounds {
+        for v in VOCAB {
+            f(format!("{}{} {}", &seed[..pos], v, &seed[pos..]));
+        }
+    }
+    for (k, &(a, b)) in spans.iter().enumerate() {
+        f(format!("{}{}", &seed[..a], &seed[b..]));
+        f(format!("{} {}{}", &seed[..b], &seed[a..b], &seed[b..]));
+        if let Some(&(c, d)) = spans.get(k + 1) {
+            f(format!("{}{}{}{}{}", &seed[..a], &seed[c..d], &seed[b..c], &seed[a..b], &seed[d..]));
+        }
+    }
+}
+
+/// Debug rendering of a whole parsed request with the prefix map in sorted order (HashMap order is
+/// not stable between instances)
+fn tree_debug(c: &kq::CombinedQuery) -> String {
+    let mut prefixes: Vec<(&String, &String)> = c.prefixes.iter().collect();
+    prefixes.sort();
+    format!("{:?}|{:?}|{:?}|{:?}|{:?}|{:?}|{:?}|{:?}|{:?}", prefixes, c.retrieve_clause, c.register_clause, c.model_decls, c.neural_relation_decls, c.train_neural_relation_decls, c.rule, c.ml_predict, c.sparql)
+}
+
+/// REPORT ONLY. A junk token at every token boundary of an accepted seed: counts the inputs that are
+/// still accepted with an identical tree, i.e. text the parser skipped without representing it.
+fn junk_probe(out: &mut ShardOut, seed: &str) {
+    let base = match guarded(|| parse_combined_query(seed).ok().map(|(_, c)| tree_debug(&c))) {
+        Ok(Some(d)) => d,
+        _ => return,
+    };
+    out.count("junk_probe_seeds", 1);
+    let spans = lex_spans(seed);
+    let mut bounds: Vec<usize> = spans.iter().map(|(a, _)| *a).collect();
+    // the end of the text is a boundary unless a comment runs up to it
+    if !spans.last().is_some_and(|(a, _)| seed[*a..].starts_with('#')) {
+        bounds.push(seed.len());
+    }
+    for pos in bounds {
+        let m = format!("{}@@ {}", &seed[..pos], &seed[pos..]);
+        out.count("junk_probe_inputs", 1);
+        if let Ok(Some(d)) = guarded(|| parse_combined_query(&m).ok().map(|(_, c)| tree_debug(&c))) {
+            out.count("junk_token_accepted", 1);
+            if d == base {
+                out.count("junk_token_ignored_same_tree", 1);
+                if out.counters.get("junk_token_ignored_same_tree") == Some(&1) {
+                    out.sample(json!({"junk_token_ignored_same_tree": m}));
+                }
+            }
+        }
+    }
+}
+
+// ---------------------------------------------------------------------------------------
+// round 3, faithfulness: text variants derived from the canonical print
+// ---------------------------------------------------------------------------------------
+
+#[derive(Clone, Copy, Debug, PartialEq, Eq)]
+pub enum Variant {
+    /// no whitespace wherever two neighbouring tokens cannot merge
+    Glued,
+    /// the optional WHERE keyword of SELECT omitted
+    NoWhere,
+    /// PREFIX prologue, IRIs written as prefixed names
+    Prefixed,
+    /// a ';' after every property list (before '.' and before '}')
+    TrailSemi,
+    /// '$' instead of '?' as the variable sigil
+    Dollar,
+}
+
+pub const SELECT_VARIANTS: [Variant; 5] = [Variant::Glued, Variant::NoWhere, Variant::Prefixed, Variant::TrailSemi, Variant::Dollar];
+pub const UPDATE_VARIANTS: [Variant; 4] = [Variant::Glued, Variant::Prefixed, Variant::TrailSemi, Variant::Dollar];
+
+fn variant_of(name: &str) -> Option<Variant> {
+    SELECT_VARIANTS.iter().copied().find(|v| format!("{:?}", v) == name)
+}
+
+/// The canonical layout separates all tokens by exactly one space; the split is only valid while no
+/// literal contains a space, a backslash or a '$' (true for the generator's value universe; other
+/// texts get no variants).
+fn canon_tokens(text: &str) -> Option<Vec<&str>> {
+    let toks: Vec<&str> = text.split(' ').collect();
+    for t in &toks {
+        if t.is_empty() || t.contains('$') || t.contains('\\') {
+            return None;
+        }
+        if t.starts_with('"') && !(t.len() >= 2 && t.ends_with('"')) {
+            return None;
+        }
+        if t.contains('"') && !t.starts_with('"') {
+            return None;
+        }
+    }
+    Some(toks)
+}
+
+fn variant_text(toks: &[&str], variant: Variant) -> String {
+    match variant {
+        Variant::Glued => {
+            let is_op = |t: &str| matches!(t, "=" | "!=" | "<" | "<=" | ">" | ">=" | "&&" | "||" | "!" | "+" | "-" | "*" | "/");
+            let word = |c: char| c.is_alphanumeric() || c == '_';
+            let mut out = String::new();
+            let mut prev: Option<&str> = None;
+            for t in toks {
+                if let Some(p) = prev {
+                    let last = p.chars().last().unwrap();
+                    let first = t.chars().next().unwrap();
+                    let numeric_prev = p.chars().all(|c| c.is_ascii_digit());
+                    // a '.' directly after a blank-node label or a prefixed name can continue that
+                    // token (`_:n._:m` lexes as `_:n._` `:m` by longest match), so it keeps its space
+                    let label_prev = p.starts_with("_:") || (!p.starts_with('<') && !p.starts_with('"') && !p.starts_with('?') && p.contains(':'));
+                    if is_op(p) || is_op(t) || (word(last) && word(first)) || (last == '"' && first == '"') || ((numeric_prev || label_prev) && first == '.') {
+                        out.push(' ');
+                    }
+                }
+                out.push_str(t);
+                prev = Some(t);
+            }
+            out
+        }
+        Variant::NoWhere => toks.iter().filter(|t| **t != "WHERE").copied().collect::<Vec<_>>().join(" "),
+        Variant::Prefixed => {
+            let mut out = vec!["PREFIX e: <http://e/>".to_string()];
+            for t in toks {
+                match t.strip_prefix("<http://e/").and_then(|x| x.strip_suffix('>')) {
+                    Some(l) if !l.is_empty() && l.chars().all(|c| c.is_ascii_alphanumeric()) => out.push(format!("e:{}", l)),
+                    _ => out.push(t.to_string()),
+                }
+            }
+            out.join(" ")
+        }
+        Variant::TrailSemi => {
+            let mut out: Vec<&str> = Vec::new();
+            for (k, t) in toks.iter().enumerate() {
+                if *t == "." {
+                    out.push(";");
+                    if toks.get(k + 1) != Some(&"}") {
+                        out.push(".");
+                    }
+                } else {
+                    out.push(t);
+                }
+            }
+            out.join(" ")
+        }
+        Variant::Dollar => toks.iter().map(|t| if let Some(n) = t.strip_prefix('?') { format!("${}", n) } else { t.to_string() }).collect::<Vec<_>>().join(" "),
+    }
+}
+
+// expansion of the names of the Prefixed variant in a converted tree
+fn unprefix_t(t: &T) -> T {
+    match t {
+        T::Num(s) => match s.strip_prefix("e:") {
+            Some(l) => T::Iri(format!("http://e/{}", l)),
+            None => t.clone(),
+        },
+        _ => t.clone(),
+    }
+}
+fn unprefix_tp(t: &TP) -> TP {
+    tp(unprefix_t(&t.s), unprefix_t(&t.p), unprefix_t(&t.o))
+}
+fn unprefix_arith(a: &Arith) -> Arith {
+    let b = |x: &Arith| Box::new(unprefix_arith(x));
+    match a {
+        Arith::Operand(t) => Arith::Operand(unprefix_t(t)),
+        Arith::Add(x, y) => Arith::Add(b(x), b(y)),
+        Arith::Sub(x, y) => Arith::Sub(b(x), b(y)),
+        Arith::Mul(x, y) => Arith::Mul(b(x), b(y)),
+        Arith::Div(x, y) => Arith::Div(b(x), b(y)),
+    }
+}
+fn unprefix_expr(e: &Expr) -> Expr {
+    match e {
+        Expr::Cmp(a, op, b) => Expr::Cmp(unprefix_t(a), *op, unprefix_t(b)),
+        Expr::ArithCmp(a, op, b) => Expr::ArithCmp(unprefix_arith(a), *op, unprefix_arith(b)),
+        Expr::And(a, b) => Expr::And(Box::new(unprefix_expr(a)), Box::new(unprefix_expr(b))),
+        Expr::Or(a, b) => Expr::Or(Box::new(unprefix_expr(a)), Box::new(unprefix_expr(b))),
+        Expr::Not(a) => Expr::Not(Box::new(unprefix_expr(a))),
+    }
+}
+fn unprefix_group(g: &Group) -> Group {
+    Group(
+        g.0.iter()
+            .map(|e| match e {
+                Elem::Triples(ts) => Elem::Triples(ts.iter().map(unprefix_tp).collect()),
+                Elem::Graph(t, inner) => Elem::Graph(unprefix_t(t), unprefix_group(inner)),
+                Elem::Union(bs) => Elem::Union(bs.iter().map(unprefix_group).collect()),
+                Elem::Nested(inner) => Elem::Nested(unprefix_group(inner)),
+                Elem::Filter(x) => Elem::Filter(unprefix_expr(x)),
+                Elem::Bind(args, o) => Elem::Bind(args.iter().map(unprefix_t).collect(), o.clone()),
+                Elem::Values(vars, rows) => Elem::Values(vars.clone(), rows.iter().map(|r| r.iter().map(|c| c.as_ref().map(unprefix_t)).collect()).collect()),
+                Elem::Sub(s) => Elem::Sub(Box::new(unprefix_select(s))),
+            })
+            .collect(),
+    )
+}
+fn unprefix_select(s: &Select) -> Select {
+    let name = |x: &String| match x.strip_prefix("e:") {
+        Some(l) => format!("http://e/{}", l),
+        None => x.clone(),
+    };
+    let mut o = s.clone();
+    o.from = s.from.iter().map(name).collect();
+    o.from_named = s.from_named.iter().map(name).collect();
+    o.pattern = unprefix_group(&s.pattern);
+    o
+}
+fn unprefix_quads(q: &[QuadT]) -> Vec<QuadT> {
+    q.iter().map(|x| QuadT { g: x.g.as_ref().map(unprefix_t), t: unprefix_tp(&x.t) }).collect()
+}
+fn unprefix_update(u: &Update) -> Update {
+    match u {
+        Update::InsertData(q) => Update::InsertData(unprefix_quads(q)),
+        Update::DeleteData(q) => Update::DeleteData(unprefix_quads(q)),
+        Update::DeleteWhere(q) => Update::DeleteWhere(unprefix_quads(q)),
+        Update::Modify { delete, insert, pattern } => Update::Modify { delete: delete.as_ref().map(|d| unprefix_quads(d)), insert: insert.as_ref().map(|d| unprefix_quads(d)), pattern: unprefix_group(pattern) },
+    }
+}
+
+fn prologue_ok(prefixes: &std::collections::HashMap<String, String>) -> bool {
+    prefixes.len() == 1 && prefixes.get("e").map(String::as_str) == Some("http://e/")
+}
+
+/// Ok(None) = the variant does not apply to this text; Ok(Some(text)) = checked and faithful
+pub fn faithful_select_variant(s: &Select, variant: Variant) -> Result<Option<String>, (String, String)> {
+    let canonical = print_select(s, Layout::Canonical);
+    let Some(toks) = canon_tokens(&canonical) else { return Ok(None) };
+    let text = variant_text(&toks, variant);
+    if variant == Variant::Dollar {
+        // the tree of the $-text must be the tree of the ?-text modulo the sigil
+        for which in ["parse_combined_query", "parse_sparql_query"] {
+            let dbg = |t: &str| -> Result<Result<String, String>, String> {
+                guarded(|| -> Result<String, String> {
+                    if which == "parse_sparql_query" {
+                        parse_sparql_query(t).map(|(_, q)| format!("{:?}", q)).map_err(|e| format!("rejected: {:?}", e))
+                    } else {
+                        parse_combined_query(t).map(|(_, c)| format!("{:?}", c.sparql)).map_err(|e| format!("rejected: {:?}", e))
+                    }
+                })
+            };
+            let base = match dbg(&canonical) {
+                Ok(Ok(d)) => d,
+                // the canonical text itself is judged by the Canonical layout case
+                _ => return Ok(None),
+            };
+            match dbg(&text) {
+                Err(p) => return Err(("panic".into(), format!("{} on {:?}: {}", which, text, p))),
+                Ok(Err(e)) => return Err(("valid_query_rejected".into(), format!("{} on {:?}: {}", which, text, crate::infra::truncate(&e, 300)))),
+                Ok(Ok(d)) => {
+                    if d.replace('$', "?") != base {
+                        return Err(("tree_differs".into(), format!("{} on {:?}\n  parsed  : {}\n  ?-text  : {}", which, text, crate::infra::truncate(&d, 600), crate::infra::truncate(&base, 600))));
+                    }
+                }
+            }
+        }
+        return Ok(Some(text));
+    }
+    let want = norm_select(s);
+    for which in ["parse_combined_query", "parse_sparql_query"] {
+        let got = guarded(|| -> Result<Select, String> {
+            if which == "parse_sparql_query" {
+                let (_, q) = parse_sparql_query(&text).map_err(|e| format!("rejected: {:?}", e))?;
+                conv_select(&q)
+            } else {
+                let (_, c) = parse_combined_query(&text).map_err(|e| format!("rejected: {:?}", e))?;
+                if variant == Variant::Prefixed && !prologue_ok(&c.prefixes) {
+                    return Err(format!("differs: prefix map {:?}", c.prefixes));
+                }
+                match c.sparql {
+                    Some(kq::SparqlOperation::Select(q)) => conv_select(&q),
+                    other => Err(format!("not parsed as SELECT: {:?}", other)),
+                }
+            }
+        });
+        match got {
+            Err(p) => return Err(("panic".into(), format!("{} on {:?}: {}", which, text, p))),
+            Ok(Err(e)) if e.starts_with("differs:") => return Err(("tree_differs".into(), format!("{} on {:?}: {}", which, text, e))),
+            Ok(Err(e)) => return Err(("valid_query_rejected".into(), format!("{} on {:?}: {}", which, text, crate::infra::truncate(&e, 300)))),
+            Ok(Ok(g)) => {
+                let g = if variant == Variant::Prefixed { unprefix_select(&g) } else { g };
+                let g = norm_select(&g);
+                if g != want {
+                    return Err(("tree_differs".into(), format!("{} on {:?}\n  parsed  : {:?}\n  expected: {:?}", which, text, g, want)));
+                }
+            }
+        }
+    }
+    Ok(Some(text))
+}
+
+/// quad block with ';' (same subject) and ',' (same subject and predicate) abbreviations inside one graph run
+fn abbrev_quads_text(quads: &[QuadT]) -> String {
+    let mut out: Vec<String> = vec!["{".into()];
+    let mut i = 0;
+    while i < quads.len() {
+        let g = &quads[i].g;
+        let mut j = i;
+        while j < quads.len() && &quads[j].g == g {
+            j += 1;
+        }
+        if let Some(gt) = g {
+            out.push("GRAPH".into());
+            out.push(print_term(gt));
+            out.push("{".into());
+        }
+        let run = &quads[i..j];
+        let mut k = 0;
+        while k < run.len() {
+            let t = &run[k].t;
+            out.push(print_term(&t.s));
+            out.push(print_term(&t.p));
+            out.push(print_term(&t.o));
+            let mut m = k + 1;
+            while m < run.len() && run[m].t.s == t.s {
+                if run[m].t.p == run[m - 1].t.p {
+                    out.push(",".into());
+                } else {
+                    out.push(";".into());
+                    out.push(print_term(&run[m].t.p));
+                }
+                out.push(print_term(&run[m].t.o));
+                m += 1;
+            }
+            out.push(".".into());
+            k = m;
+        }
+        if g.is_some() {
+            out.push("}".into());
+        }
+        i = j;
+    }
+    out.push("}".into());
+    out.join(" ")
+}
+
+fn abbrev_update_text(u: &Update) -> String {
+    match u {
+        Update::InsertData(q) => format!("INSERT DATA {}", abbrev_quads_text(q)),
+        Update::DeleteData(q) => format!("DELETE DATA {}", abbrev_quads_text(q)),
+        Update::DeleteWhere(q) => format!("DELETE WHERE {}", abbrev_quads_text(q)),
+        Update::Modify { delete, insert, pattern } => {
+            let mut parts: Vec<String> = Vec::new();
+            if let Some(d) = delete {
+                parts.push(format!("DELETE {}", abbrev_quads_text(d)));
+            }
+            if let Some(i) = insert {
+                parts.push(format!("INSERT {}", abbrev_quads_text(i)));
+            }
+            parts.push(format!("WHERE {}", print_group_text(pattern, Layout::Abbrev)));
+            parts.join(" ")
+        }
+    }
+}
+
+/// the update list of the faithfulness family: the C03 alphabet plus updates whose quad blocks share
+/// subjects and predicates (so that the ';' ',' printing has something to abbreviate)
+pub fn all_updates() -> Vec<Update> {
+    use super::common::*;
+    let mut v = ugen::valid_updates();
+    let i = |n: &str| T::iri(n);
+    let var = |n: &str| T::var(n);
+    let dq = |s: T, p: T, o: T| QuadT { g: None, t: tp(s, p, o) };
+    let gq = |g: T, s: T, p: T, o: T| QuadT { g: Some(g), t: tp(s, p, o) };
+    v.push(Update::InsertData(vec![dq(i(A), i(P), i(B)), dq(i(A), i(P), i(C)), dq(i(A), i(Q), T::lit("1")), gq(i(G1), i(A), i(P), i(B)), gq(i(G1), i(A), i(Q), T::lit("2")), gq(i(G1), i(A), i(Q), T::lit("x"))]));
+    v.push(Update::DeleteData(vec![dq(i(A), i(P), i(B)), dq(i(A), i(Q), T::lit("1")), dq(i(B), i(P), i(C))]));
+    v.push(Update::Modify {
+        delete: Some(vec![dq(var("s"), i(P), var("o")), dq(var("s"), i(Q), var("v"))]),
+        insert: Some(vec![gq(var("g"), var("s"), i(P), var("o")), gq(var("g"), var("s"), i(P), var("v"))]),
+        pattern: Group(vec![Elem::Graph(var("g"), Group(vec![Elem::Triples(vec![tp(var("s"), i(P), var("o")), tp(var("s"), i(Q), var("v"))])]))]),
+    });
+    v.push(Update::DeleteWhere(vec![dq(var("s"), i(P), var("o")), dq(var("s"), i(Q), var("v")), gq(i(G1), var("s"), i(P), var("o")), gq(i(G1), var("s"), i(P), i(C))]));
+    v.push(Update::Modify { delete: None, insert: Some(vec![dq(var("s"), i(P), T::Bnode("n".into())), dq(var("s"), i(Q), T::Bnode("n".into())), dq(T::Bnode("n".into()), i(P), var("o"))]), pattern: Group(vec![Elem::Triples(vec![tp(var("s"), i(P), var("o"))])]) });
+    v
+}
+
+fn update_text(u: &Update, variant: Option<Variant>) -> Option<String> {
+    match variant {
+        None => Some(abbrev_update_text(u)),
+        Some(v) => {
+            let canonical = print_update(u, Layout::Canonical);
+            let toks = canon_tokens(&canonical)?;
+            Some(variant_text(&toks, v))
+        }
+    }
+}
+
+/// `variant == None` is the quad-block abbreviation text
+pub fn faithful_update_variant(u: &Update, variant: Option<Variant>) -> Result<Option<String>, (String, String)> {
+    let Some(text) = update_text(u, variant) else { return Ok(None) };
+    if variant == Some(Variant::Dollar) {
+        let canonical = print_update(u, Layout::Canonical);
+        let dbg = |t: &str| guarded(|| parse_combined_query(t).map(|(_, c)| format!("{:?}", c.sparql)).map_err(|e| format!("rejected: {:?}", e)));
+        let base = match dbg(&canonical) {
+            Ok(Ok(d)) => d,
+            _ => return Ok(None),
+        };
+        return match dbg(&text) {
+            Err(p) => Err(("panic".into(), format!("{:?}: {}", text, p))),
+            Ok(Err(e)) => Err(("valid_query_rejected".into(), format!("{:?}: {}", text, crate::infra::truncate(&e, 300)))),
+            Ok(Ok(d)) => {
+                if d.replace('$', "?") != base {
+                    Err(("tree_differs".into(), format!("{:?}\n  parsed  : {}\n  ?-text  : {}", text, crate::infra::truncate(&d, 600), crate::infra::truncate(&base, 600))))
+                } else {
+                    Ok(Some(text))
+                }
+            }
+        };
+    }
+    let want = norm_update(u);
+    let got = guarded(|| -> Result<Update, String> {
+        let (_, c) = parse_combined_query(&text).map_err(|e| format!("rejected: {:?}", e))?;
+        if variant == Some(Variant::Prefixed) && !prologue_ok(&c.prefixes) {
+            return Err(format!("differs: prefix map {:?}", c.prefixes));
+        }
+        match c.sparql {
+            Some(kq::SparqlOperation::Update(u)) => conv_update(&u),
+            other => Err(format!("not parsed as Update: {:?}", other)),
+        }
+    });
+    match got {
+        Err(p) => Err(("panic".into(), format!("{:?}: {}", text, p))),
+        Ok(Err(e)) if e.starts_with("differs:") => Err(("tree_differs".into(), format!("{:?}: {}", text, e))),
+        Ok(Err(e)) => Err(("valid_query_rejected".into(), format!("{:?}: {}", text, crate::infra::truncate(&e, 300)))),
+        Ok(Ok(g)) => {
+            let g = if variant == Some(Variant::Prefixed) { unprefix_update(&g) } else { g };
+            let g = norm_update(&g);
+            if g != want {
+                Err(("tree_differs".into(), format!("{:?}\n  parsed  : {:?}\n  expected: {:?}", text, g, want)))
+            } else {
+                Ok(Some(text))
+            }
+        }
+    }
+}
+
+/// Queries the C01 generator does not produce: a sub-SELECT whose last clause is ORDER BY (the
+/// condition list is closed by '}'), in several contexts.
+pub fn extra_queries() -> Vec<Select> {
+    use super::common::*;
+    let v = |n: &str| T::var(n);
+    let i = |n: &str| T::iri(n);
+    let spo = || Elem::Triples(vec![tp(v("s"), i(P), v("o"))]);
+    let mut subs: Vec<Select> = Vec::new();
+    for keys in [vec![("o", true)], vec![("o", false)], vec![("s", false), ("o", true)], vec![("o", true), ("s", true), ("o", false)]] {
+        let mut s = Select::simple(&["s", "o"], Group(vec![spo()]));
+        s.order_by = keys.iter().map(|(k, d)| (k.to_string(), *d)).collect();
+        subs.push(s);
+    }
+    let mut s = Select::simple(&[], Group(vec![Elem::Triples(vec![tp(v("s"), i(Q), v("v"))])]));
+    s.proj = Proj::Items(vec![ProjItem::Var("s".into()), ProjItem::Agg(Agg::Sum, "v".into(), "t".into())]);
+    s.group_by = vec!["s".into()];
+    s.order_by = vec![("t".into(), true)];
+    subs.push(s);
+    let mut s = Select::simple(&["s"], Group(vec![spo()]));
+    s.distinct = true;
+    s.order_by = vec![("s".into(), false)];
+    subs.push(s);
+    let mut out = Vec::new();
+    let star = |g: Group| {
+        let mut s = Select::simple(&[], g);
+        s.proj = Proj::Star;
+        s
+    };
+    for sub in subs {
+        let e = Elem::Sub(Box::new(sub));
+        out.push(star(Group(vec![e.clone()])));
+        out.push(star(Group(vec![e.clone(), spo()])));
+        out.push(star(Group(vec![spo(), e.clone()])));
+        out.push(star(Group(vec![Elem::Graph(i(G1), Group(vec![e.clone()]))])));
+        out.push(star(Group(vec![Elem::Union(vec![Group(vec![e.clone()]), Group(vec![spo()])])])));
+        out.push(star(Group(vec![e.clone(), e.clone()])));
+    }
+    out
+}
+
+// ---------------------------------------------------------------------------------------
+// round 3, faithfulness: operator precedence
+// ---------------------------------------------------------------------------------------
+
+/// a filter tree with chains of one operator flattened (associativity is not observable)
+#[derive(Clone, Debug, PartialEq, Eq)]
+enum Flat {
+    Atom(Expr),
+    Not(Box<Flat>),
+    And(Vec<Flat>),
+    Or(Vec<Flat>),
+}
+
+fn flat(e: &Expr) -> Flat {
+    match e {
+        Expr::And(a, b) => {
+            let mut v = Vec::new();
+            for x in [a, b] {
+                match flat(x) {
+                    Flat::And(xs) => v.extend(xs),
+                    o => v.push(o),
+                }
+            }
+            Flat::And(v)
+        }
+        Expr::Or(a, b) => {
+            let mut v = Vec::new();
+            for x in [a, b] {
+                match flat(x) {
+                    Flat::Or(xs) => v.extend(xs),
+                    o => v.push(o),
+                }
+            }
+            Flat::Or(v)
+        }
+        Expr::Not(a) => Flat::Not(Box::new(flat(a))),
+        other => Flat::Atom(other.clone()),
+    }
+}
+
+/// text with only the parentheses the grammar requires; `in_and` = the parent is an && chain
+fn prec_text(e: &Expr, in_and: bool) -> String {
+    match e {
+        Expr::Cmp(a, op, b) => format!("{} {} {}", print_term(a), op.sym(), print_term(b)),
+        Expr::ArithCmp(a, op, b) => format!("{} {} {}", a.text(), op.sym(), b.text()),
+        Expr::Not(x) => format!("!({})", prec_text(x, false)),
+        Expr::And(a, b) => format!("{} && {}", prec_text(a, true), prec_text(b, true)),
+        Expr::Or(a, b) => {
+            let s = format!("{} || {}", prec_text(a, false), prec_text(b, false));
+            if in_and {
+                format!("({})", s)
+            } else {
+                s
+            }
+        }
+    }
+}
+
+fn expr_trees(leaves: &[Expr]) -> Vec<Expr> {
+    if leaves.len() == 1 {
+        return vec![leaves[0].clone()];
+    }
+    let mut out = Vec::new();
+    for split in 1..leaves.len() {
+        for l in expr_trees(&leaves[..split]) {
+            for r in expr_trees(&leaves[split..]) {
+                out.push(Expr::And(Box::new(l.clone()), Box::new(r.clone())));
+                out.push(Expr::Or(Box::new(l.clone()), Box::new(r.clone())));
+            }
+        }
+    }
+    out
+}
+
+/// (request text, filter expression it denotes)
+pub fn precedence_matrix() -> Vec<(String, Expr)> {
+    let v = |n: &str| T::var(n);
+    let num = |n: &str| T::Num(n.to_string());
+    let atoms = vec![Expr::Cmp(v("v"), Cmp::Gt, num("1")), Expr::Cmp(v("v"), Cmp::Lt, num("5")), Expr::Cmp(v("s"), Cmp::Eq, T::iri("http://e/a")), Expr::Cmp(v("v"), Cmp::Ne, num("3"))];
+    let mut exprs: Vec<Expr> = Vec::new();
+    for n in 2..=4 {
+        let plain = &atoms[..n];
+        exprs.extend(expr_trees(plain));
+        for e in expr_trees(plain) {
+            exprs.push(Expr::Not(Box::new(e)));
+        }
+        let mut first = plain.to_vec();
+        first[0] = Expr::Not(Box::new(first[0].clone()));
+        exprs.extend(expr_trees(&first));
+        let mut last = plain.to_vec();
+        last[n - 1] = Expr::Not(Box::new(last[n - 1].clone()));
+        exprs.extend(expr_trees(&last));
+    }
+    exprs.into_iter().map(|e| (format!("SELECT ?s ?v WHERE {{ ?s <http://e/q> ?v . FILTER({}) }}", prec_text(&e, false)), e)).collect()
+}
+
+/// does the text contain an && chain directly under || without parentheses (the case only precedence decides)?
+fn has_unparenthesised_mix(e: &Expr) -> bool {
+    match e {
+        Expr::Or(a, b) => matches!(**a, Expr::And(..)) || matches!(**b, Expr::And(..)) || has_unparenthesised_mix(a) || has_unparenthesised_mix(b),
+        Expr::And(a, b) => has_unparenthesised_mix(a) || has_unparenthesised_mix(b),
+        Expr::Not(a) => has_unparenthesised_mix(a),
+        _ => false,
+    }
+}
+
+pub fn precedence_one(text: &str, want: &Expr) -> Result<(), (String, String)> {
+    for which in ["parse_combined_query", "parse_sparql_query"] {
+        let got = guarded(|| -> Result<Select, String> {
+            if which == "parse_sparql_query" {
+                let (_, q) = parse_sparql_query(text).map_err(|e| format!("rejected: {:?}", e))?;
+                conv_select(&q)
+            } else {
+                let (_, c) = parse_combined_query(text).map_err(|e| format!("rejected: {:?}", e))?;
+                match c.sparql {
+                    Some(kq::SparqlOperation::Select(q)) => conv_select(&q),
+                    other => Err(format!("not parsed as SELECT: {:?}", other)),
+                }
+            }
+        });
+        match got {
+            Err(p) => return Err(("panic".into(), format!("{} on {:?}: {}", which, text, p))),
+            Ok(Err(e)) => return Err(("valid_query_rejected".into(), format!("{} on {:?}: {}", which, text, crate::infra::truncate(&e, 300)))),
+            Ok(Ok(s)) => {
+                let filters: Vec<&Expr> = s.pattern.0.iter().filter_map(|e| if let Elem::Filter(x) = e { Some(x) } else { None }).collect();
+                if s.pattern.0.len() != 2 || filters.len() != 1 || flat(filters[0]) != flat(want) {
+                    return Err(("tree_differs".into(), format!("{} on {:?}\n  parsed  : {:?}\n  expected: [triples, Filter({:?})] (chains of one operator compared flattened)", which, text, s.pattern, want)));
+                }
+            }
+        }
+    }
+    Ok(())
+}
+
+// ---------------------------------------------------------------------------------------
+// round 3, faithfulness: hand-built trees (term matrix by position, forms outside the generator)
+// ---------------------------------------------------------------------------------------
+
+fn kq_select<'a>(vars: Vec<(&'a str, &'a str, Option<&'a str>)>, pattern: kq::GroupGraphPattern<'a>) -> kq::SelectQuery<'a> {
+    kq::SelectQuery { distinct: false, variables: vars, from: vec![], from_named: vec![], pattern, group_vars: vec![], order_conditions: vec![], limit: None }
+}
+
+fn dbg_select(q: kq::SelectQuery) -> String {
+    format!("{:?}", Some(kq::SparqlOperation::Select(q)))
+}
+
+#[derive(Clone, Copy, Debug, PartialEq, Eq)]
+pub enum TShape {
+    ObjDot,
+    ObjNoDot,
+    ObjAbbrev,
+    ValuesOne,
+    FilterEq,
+    InsertData,
+    Subj,
+    Pred,
+    PredInGraph,
+    GraphName,
+}
+
+pub struct TermCase {
+    pub text: String,
+    pub token: String,
+    pub shape: TShape,
+}
+
+/// Debug rendering of the tree a term-matrix request denotes (terms are kept verbatim by the parser)
+pub fn term_expected(shape: TShape, tok: &str) -> String {
+    use kq::GroupGraphPattern as G;
+    let var = |v: &'static str| ("VAR", v, None);
+    match shape {
+        TShape::ObjDot | TShape::ObjNoDot => dbg_select(kq_select(vec![var("?s")], G::Bgp(vec![("?s", "ex:p", tok)]))),
+        TShape::ObjAbbrev => dbg_select(kq_select(vec![var("?s")], G::Bgp(vec![("?s", "ex:p", tok), ("?s", "ex:q", "?z"), ("?s", "ex:q", tok)]))),
+        TShape::ValuesOne => dbg_select(kq_select(
+            vec![var("?s")],
+            G::Join(vec![G::Values(kq::ValuesClause { variables: vec!["?o"], values: vec![vec![kq::Value::Term(tok.to_string())]] }), G::Bgp(vec![("?s", "ex:p", "?o")])]),
+        )),
+        TShape::FilterEq => dbg_select(kq_select(vec![var("?s")], G::Join(vec![G::Bgp(vec![("?s", "ex:p", "?o")]), G::Filter(kq::FilterExpression::Comparison("?o", "=", tok))]))),
+        TShape::InsertData => format!(
+            "{:?}",
+            Some(kq::SparqlOperation::Update(kq::UpdateOperation::InsertData(kq::InsertClause { quads: vec![kq::LexicalQuadPattern { graph: None, triple: ("ex:s", "ex:p", tok) }] })))
+        ),
+        TShape::Subj => dbg_select(kq_select(vec![var("?o")], G::Bgp(vec![(tok, "ex:p", "?o")]))),
+        TShape::Pred => dbg_select(kq_select(vec![var("?o")], G::Bgp(vec![("?s", tok, "?o")]))),
+        TShape::PredInGraph => dbg_select(kq_select(vec![var("?o")], G::Graph { name: "ex:g", pattern: Box::new(G::Bgp(vec![("?s", tok, "?o")])) })),
+        TShape::GraphName => {
+            let mut q = kq_select(vec![var("?o")], G::Graph { name: tok, pattern: Box::new(G::Bgp(vec![("?s", "ex:p", "?o")])) });
+            q.from = vec!["<http://e/g1>"];
+            q.from_named = vec!["<http://e/g2>"];
+            dbg_select(q)
+        }
+    }
+}
+
+/// hand-written requests with the tree each denotes; `$`-sigils are compared as `?`
+pub fn forms_matrix() -> Vec<(String, String)> {
+    use kq::ArithmeticExpression as A;
+    use kq::FilterExpression as F;
+    use kq::GroupGraphPattern as G;
+    let var = |v: &'static str| ("VAR", v, None);
+    let p = "<http://e/p>";
+    let q = "<http://e/q>";
+    let mut out: Vec<(String, String)> = Vec::new();
+    // FILTER functions
+    let t_p_o = || G::Bgp(vec![("?t", p, "?o")]);
+    let e1 = dbg_select(kq_select(vec![var("?t")], G::Join(vec![t_p_o(), G::Filter(F::FunctionCall("isTRIPLE", vec!["?t"]))])));
+    for text in [
+        "SELECT ?t WHERE { ?t <http://e/p> ?o . FILTER(isTRIPLE(?t)) }",
+        "select ?t where { ?t <http://e/p> ?o . filter ( ISTRIPLE ( ?t ) ) }",
+        "SELECT?t{?t<http://e/p>?o.FILTER(istriple(?t))}",
+        "SELECT ?t WHERE { ?t <http://e/p> ?o . # c\n FILTER # c\n ( isTriple # c\n ( ?t ) ) }",
+    ] {
+        out.push((text.into(), e1.clone()));
+    }
+    out.push((
+        "SELECT ?t WHERE { ?t <http://e/p> ?o . FILTER(TRIPLE(?s, <http://e/p>, \"x\")) }".into(),
+        dbg_select(kq_select(vec![var("?t")], G::Join(vec![t_p_o(), G::Filter(F::FunctionCall("TRIPLE", vec!["?s", p, "\"x\""]))]))),
+    ));
+    out.push((
+        "SELECT ?t WHERE { ?t <http://e/p> ?o . FILTER(SUBJECT(<< ?s <http://e/p> ?o >>)) }".into(),
+        dbg_select(kq_select(vec![var("?t")], G::Join(vec![t_p_o(), G::Filter(F::FunctionCall("SUBJECT", vec!["<< ?s <http://e/p> ?o >>"]))]))),
+    ));
+    let e4 = dbg_select(kq_select(
+        vec![var("?t")],
+        G::Join(vec![
+            t_p_o(),
+            G::Filter(F::And(
+                Box::new(F::Not(Box::new(F::FunctionCall("isTRIPLE", vec!["?o"])))),
+                Box::new(F::Or(Box::new(F::FunctionCall("PREDICATE", vec!["?t"])), Box::new(F::FunctionCall("OBJECT", vec!["?t"])))),
+            )),
+        ]),
+    ));
+    for text in ["SELECT ?t WHERE { ?t <http://e/p> ?o . FILTER(!isTRIPLE(?o) && (PREDICATE(?t) || OBJECT(?t))) }", "select ?t where { ?t <http://e/p> ?o . filter(! istriple(?o)&&(predicate(?t)||object(?t))) }"] {
+        out.push((text.into(), e4.clone()));
+    }
+    // bare arithmetic: precedence and left-associativity
+    let s_q_v = || G::Bgp(vec![("?s", q, "?v")]);
+    let op = |s: &'static str| Box::new(A::Operand(s));
+    let arith = |texts: &[&str], a: A<'static>, out: &mut Vec<(String, String)>| {
+        let e = dbg_select(kq_select(vec![var("?s")], G::Join(vec![s_q_v(), G::Filter(F::ArithmeticExpr(Box::new(a)))])));
+        for t in texts {
+            out.push((format!("SELECT ?s WHERE {{ ?s <http://e/q> ?v . FILTER({}) }}", t), e.clone()));
+        }
+    };
+    arith(&["?v", " ?v "], A::Operand("?v"), &mut out);
+    arith(&["?v + 1 * 2", "?v+1*2"], A::Add(op("?v"), Box::new(A::Multiply(op("1"), op("2")))), &mut out);
+    arith(&["?v * 2 + 1", "?v*2+1"], A::Add(Box::new(A::Multiply(op("?v"), op("2"))), op("1")), &mut out);
+    // (a bare arithmetic filter that STARTS with a parenthesis, `FILTER((?v + 1) * 2)`, is refused by
+    //  sparql_filter_atom - the '(' branch wins over the arithmetic fallback; whether that form belongs
+    //  to the supported fragment is not fixed by the statement, so it is not demanded here)
+    arith(&["2 * (?v + 1)", "2*( ?v+1 )"], A::Multiply(op("2"), Box::new(A::Add(op("?v"), op("1")))), &mut out);
+    arith(&["?v - 1 - 2"], A::Subtract(Box::new(A::Subtract(op("?v"), op("1"))), op("2")), &mut out);
+    arith(&["?v / 2 / 2"], A::Divide(Box::new(A::Divide(op("?v"), op("2"))), op("2")), &mut out);
+    arith(&["?v - 1 * 2 / 4"], A::Subtract(op("?v"), Box::new(A::Divide(Box::new(A::Multiply(op("1"), op("2"))), op("4")))), &mut out);
+    // aggregates without wrapper / alias
+    let mut agg = kq_select(vec![var("?s"), ("SUM", "?v", None), ("MAX", "?v", Some("?m")), ("MIN", "?v", Some("?lo"))], s_q_v());
+    agg.group_vars = vec!["?s"];
+    let e = dbg_select(agg);
+    for text in ["SELECT ?s SUM(?v) (MAX(?v) AS ?m) MIN(?v) AS ?lo WHERE { ?s <http://e/q> ?v } GROUP BY ?s", "select ?s sum(?v) (max(?v) as ?m) min(?v) as ?lo where { ?s <http://e/q> ?v } group by ?s", "SELECT?s SUM(?v)(MAX(?v)AS?m)MIN(?v)AS?lo{?s<http://e/q>?v}GROUP BY?s"] {
+        out.push((text.into(), e.clone()));
+    }
+    // 'a', prefixed names in FROM / GRAPH
+    let mut fq = kq_select(vec![var("?s")], G::Graph { name: "ex:g2", pattern: Box::new(G::Bgp(vec![("?s", "a", "ex:T")])) });
+    fq.from = vec!["ex:g1"];
+    fq.from_named = vec!["ex:g2"];
+    let e = dbg_select(fq);
+    for text in ["PREFIX ex: <http://e/> SELECT ?s FROM ex:g1 FROM NAMED ex:g2 WHERE { GRAPH ex:g2 { ?s a ex:T } }", "prefix ex: <http://e/>\nselect ?s\nfrom ex:g1\nfrom named ex:g2\nwhere { graph ex:g2 { ?s a ex:T . } }", "PREFIX ex:<http://e/>SELECT?s FROM ex:g1 FROM NAMED ex:g2{GRAPH ex:g2{?s a ex:T}}"] {
+        out.push((text.into(), e.clone()));
+    }
+    // ';' before GRAPH and before '}'
+    out.push((
+        "SELECT ?s WHERE { ?s <http://e/p> ?o ; GRAPH <http://e/g1> { ?s <http://e/q> ?v ; } }".into(),
+        dbg_select(kq_select(vec![var("?s")], G::Join(vec![G::Bgp(vec![("?s", p, "?o")]), G::Graph { name: "<http://e/g1>", pattern: Box::new(G::Bgp(vec![("?s", q, "?v")])) }]))),
+    ));
+    // ORDER BY closed by '}'
+    let mut sub = kq_select(vec![var("?s"), var("?o")], G::Bgp(vec![("?s", p, "?o")]));
+    sub.order_conditions = vec![kq::OrderCondition { variable: "?o", direction: kq::SortDirection::Desc }, kq::OrderCondition { variable: "?s", direction: kq::SortDirection::Asc }];
+    let e = dbg_select(kq_select(vec![var("?s")], G::SubQuery(Box::new(kq::SubQuery { query: sub }))));
+    for text in ["SELECT ?s WHERE { { SELECT ?s ?o WHERE { ?s <http://e/p> ?o } ORDER BY DESC(?o) ?s } }", "SELECT ?s WHERE { { SELECT ?s ?o WHERE { ?s <http://e/p> ?o } ORDER BY DESC(?o) ASC(?s)} }", "select ?s where{{select ?s ?o where{?s<http://e/p>?o}order by desc(?o)?s}}"] {
+        out.push((text.into(), e.clone()));
+    }
+    // '$' sigil (compared as '?')
+    let e = dbg_select(kq_select(vec![var("?s")], G::Bgp(vec![("?s", p, "?o")])));
+    for text in ["SELECT $s WHERE { $s <http://e/p> $o }", "SELECT $s WHERE { ?s <http://e/p> $o . }", "SELECT ?s { ?s <http://e/p> ?o }", "SELECT ?s\n{ ?s <http://e/p> ?o }"] {
+        out.push((text.into(), e.clone()));
+    }
+    // %HH and backslash escapes in local names
+    out.push(("PREFIX ex: <http://e/> SELECT ?s WHERE { ?s ex:a%41 ex:b\\.c ; ex:p\\~q ?o }".into(), dbg_select(kq_select(vec![var("?s")], G::Bgp(vec![("?s", "ex:a%41", "ex:b\\.c"), ("?s", "ex:p\\~q", "?o")])))));
+    // quad-block abbreviations
+    let quad = |g: Option<&'static str>, s: &'static str, p: &'static str, o: &'static str| kq::LexicalQuadPattern { graph: g, triple: (s, p, o) };
+    let (a, b, c, g1) = ("<http://e/a>", "<http://e/b>", "<http://e/c>", "<http://e/g1>");
+    let e = format!(
+        "{:?}",
+        Some(kq::SparqlOperation::Update(kq::UpdateOperation::InsertData(kq::InsertClause {
+            quads: vec![quad(None, a, p, b), quad(None, a, p, c), quad(None, a, q, "\"1\""), quad(Some(g1), a, p, b), quad(Some(g1), a, q, "\"2\""), quad(Some(g1), a, q, "\"3\"")]
+        })))
+    );
+    for text in [
+        "INSERT DATA { <http://e/a> <http://e/p> <http://e/b> , <http://e/c> ; <http://e/q> \"1\" . GRAPH <http://e/g1> { <http://e/a> <http://e/p> <http://e/b> ; <http://e/q> \"2\" , \"3\" } }",
+        "insert data{<http://e/a><http://e/p><http://e/b>,<http://e/c>;<http://e/q>\"1\".graph<http://e/g1>{<http://e/a><http://e/p><http://e/b>;<http://e/q>\"2\",\"3\";}}",
+    ] {
+        out.push((text.into(), e.clone()));
+    }
+    // multi-column VALUES with UNDEF
+    let e = dbg_select(kq_select(
+        vec![var("?s")],
+        G::Values(kq::ValuesClause { variables: vec!["?s", "?v"], values: vec![vec![kq::Value::Term(a.to_string()), kq::Value::Term("\"1\"".into())], vec![kq::Value::Undef, kq::Value::Term("2.5".into())]] }),
+    ));
+    for text in ["SELECT ?s WHERE { VALUES (?s ?v) { (<http://e/a> \"1\") (UNDEF 2.5) } }", "select ?s where { values ( ?s ?v ) { ( <http://e/a> \"1\" ) ( undef 2.5 ) } }", "SELECT?s{VALUES(?s?v){(<http://e/a>\"1\")(UNDEF 2.5)}}"] {
+        out.push((text.into(), e.clone()));
+    }
+    out
+}
+
+/// Err((symptom, detail)) unless parse_combined_query yields exactly the expected tree
+pub fn expected_tree_one(text: &str, expected: &str) -> Result<(), (String, String)> {
+    let got = guarded(|| -> Result<String, String> {
+        let (_, c) = parse_combined_query(text).map_err(|e| format!("rejected: {:?}", e))?;
+        Ok(format!("{:?}", c.sparql))
+    });
+    match got {
+        Err(p) => Err(("panic".into(), format!("parse_combined_query on {:?}: {}", text, p))),
+        Ok(Err(e)) => Err(("valid_query_rejected".into(), format!("{:?}: {}", text, crate::infra::truncate(&e, 300)))),
+        Ok(Ok(d)) => {
+            if d.replace('$', "?") == expected.replace('$', "?") {
+                Ok(())
+            } else {
+                Err(("tree_differs".into(), format!("{:?}\n  parsed  : {}\n  expected: {}", text, crate::infra::truncate(&d, 700), crate::infra::truncate(expected, 700))))
+            }
+        }
+    }
+}
+
 fn run(ctx: &Ctx) -> ShardOut {
     let mut out = ShardOut::default();
     let mut idx = 0u64;
     // (i) token strings
     let maxlen = if ctx.thorough() { 4 } else { 3 };
-    let n = TOKENS.len();
+    let alphabet = all_tokens();
+    let n = alphabet.len();
+    out.count("token_alphabet", if ctx.shard == 0 { n as u64 } else { 0 });
     for len in 1..=maxlen {
         let total = (n as u64).pow(len as u32);
         for code in 0..total {
@@ -766,7 +1789,7 @@ fn run(ctx: &Ctx) -> ShardOut {
             let mut c = code;
             let mut toks = Vec::with_capacity(len);
             for _ in 0..len {
-                toks.push(TOKENS[(c % n as u64) as usize]);
+                toks.push(alphabet[(c % n as u64) as usize]);
                 c /= n as u64;
             }
             record_totality(&mut out, ctx, "tokens_spaced", &toks.join(" "));
@@ -817,9 +1840,112 @@ fn run(ctx: &Ctx) -> ShardOut {
             }
         }
     }
+    // round 3: seeds of the extension grammars, extra special characters, token-level mutations
+    let xseeds = extra_seeds();
+    out.count("extra_seeds", if ctx.shard == 0 { xseeds.len() as u64 } else { 0 });
+    for (k, seed) in xseeds.iter().enumerate() {
+        idx += 1;
+        if !ctx.mine(idx) {
+            continue;
+        }
+        let before = out.counters.get("accepted_inputs").copied().unwrap_or(0);
+        record_totality(&mut out, ctx, "extra_seed", seed);
+        if out.counters.get("accepted_inputs").copied().unwrap_or(0) > before {
+            out.count("extra_seeds_accepted", 1);
+        } else {
+            // expected for exactly one seed: the dot after FILTER (index 30), which the parser refuses
+            out.count(&format!("extra_seed_not_accepted_index_{}", k), 1);
+        }
+    }
+    let all_specials: Vec<&str> = SPECIALS.iter().chain(EXTRA_SPECIALS.iter()).copied().collect();
+    'xs: for (k, seed) in seeds.iter().chain(xseeds.iter()).enumerate() {
+        let mut batch = Vec::new();
+        if k < seeds.len() {
+            // old seeds already had the 14 specials and the structural mutations
+            mutations_with(seed, &EXTRA_SPECIALS, false, &mut |m| batch.push(m));
+        } else {
+            mutations_with(seed, &all_specials, true, &mut |m| batch.push(m));
+        }
+        for m in batch {
+            idx += 1;
+            if !ctx.mine(idx) {
+                continue;
+            }
+            out.count("single_mutation_round3_inputs", 1);
+            record_totality(&mut out, ctx, "single_mutation", &m);
+        }
+        if ctx.expired() {
+            out.capped.push("wall-clock cap hit in round-3 single mutations".into());
+            break 'xs;
+        }
+    }
+    'tm: for seed in seeds.iter().chain(xseeds.iter()) {
+        let mut batch = Vec::new();
+        token_mutations(seed, &mut |m| batch.push(m));
+        for m in batch {
+            idx += 1;
+            if !ctx.mine(idx) {
+                continue;
+            }
+            out.count("token_mutation_inputs", 1);
+            let before = out.counters.get("accepted_inputs").copied().unwrap_or(0);
+            record_totality(&mut out, ctx, "token_mutation", &m);
+            if out.counters.get("accepted_inputs").copied().unwrap_or(0) > before {
+                out.count("token_mutation_accepted", 1);
+            }
+        }
+        if ctx.expired() {
+            out.capped.push("wall-clock cap hit in token-level mutations".into());
+            break 'tm;
+        }
+    }
+    // thorough: every PAIR of token-level mutations of the four shortest seeds and of one seed per
+    // extension grammar (MODEL, NEURAL RELATION, ML.PREDICT, RULE with NOT)
+    if ctx.thorough() {
+        let mut all: Vec<&String> = seeds.iter().chain(xseeds.iter()).filter(|s| s.len() > 10).collect();
+        all.sort_by_key(|s| s.len());
+        let mut picks: Vec<&String> = all.iter().take(4).copied().collect();
+        for needle in ["MODEL \"m\" { ARCH", "NEURAL RELATION ex:pred USING MODEL \"m\" { INPUT", "ML.PREDICT( MODEL \"m\", INPUT { SELECT ?room", "RULE :N :-"] {
+            if let Some(s) = all.iter().find(|s| s.starts_with(needle)) {
+                picks.push(s);
+            }
+        }
+        out.count("double_token_mutation_seeds", if ctx.shard == 0 { picks.len() as u64 } else { 0 });
+        'dt: for seed in picks {
+            let mut first = Vec::new();
+            token_mutations(seed, &mut |m| first.push(m));
+            for m1 in first {
+                idx += 1;
+                if !ctx.mine(idx) {
+                    continue;
+                }
+                if ctx.expired() {
+                    out.capped.push("wall-clock cap hit in double token-level mutations".into());
+                    break 'dt;
+                }
+                let mut second = Vec::new();
+                token_mutations(&m1, &mut |m| second.push(m));
+                for m2 in second {
+                    out.count("double_token_mutation_inputs", 1);
+                    record_totality(&mut out, ctx, "double_token_mutation", &m2);
+                }
+            }
+        }
+    }
+    // report only: junk token at every token boundary of every accepted seed
+    for seed in seeds.iter().chain(xseeds.iter()) {
+        idx += 1;
+        if !ctx.mine(idx) {
+            continue;
+        }
+        junk_probe(&mut out, seed);
+    }
     // faithfulness
-    let qs = qgen::queries(if ctx.thorough() { Scope::Thorough } else { Scope::Quick });
+    let mut qs = qgen::queries(if ctx.thorough() { Scope::Thorough } else { Scope::Quick });
+    let generated = qs.len();
+    qs.extend(extra_queries());
     out.count("faithfulness_queries", if ctx.shard == 0 { qs.len() as u64 } else { 0 });
+    out.count("faithfulness_extra_queries", if ctx.shard == 0 { (qs.len() - generated) as u64 } else { 0 });
     for (qi, s) in qs.iter().enumerate() {
         idx += 1;
         if !ctx.mine(idx) {
@@ -838,6 +1964,28 @@ fn run(ctx: &Ctx) -> ShardOut {
                 tags.push(format!("layout={:?}", layout));
                 tags.push("family=faithfulness".into());
                 out.fail(json!({"family": "faithful_select", "scope": if ctx.thorough() { "Thorough" } else { "Quick" }, "qindex": qi, "layout": format!("{:?}", layout), "text": text}), &sym, detail, tags);
+            }
+        }
+        // round 3: text variants derived from the canonical print
+        let canonical = print_select(s, Layout::Canonical);
+        let minimal = print_select(s, Layout::Minimal);
+        for variant in SELECT_VARIANTS {
+            out.evaluations += 1;
+            match faithful_select_variant(s, variant) {
+                Ok(None) => out.count("variant_not_applicable", 1),
+                Ok(Some(text)) => {
+                    out.count(&format!("variant_{:?}_cases", variant), 1);
+                    if text != canonical && text != minimal {
+                        out.count(&format!("variant_{:?}_new_texts", variant), 1);
+                        out.nontrivial(&text);
+                    }
+                }
+                Err((sym, detail)) => {
+                    let mut tags = super::c01::query_tags(s);
+                    tags.push(format!("variant={:?}", variant));
+                    tags.push("family=faithfulness_variant".into());
+                    out.fail(json!({"family": "faithful_variant_select", "scope": if ctx.thorough() { "Thorough" } else { "Quick" }, "canonical": canonical, "variant": format!("{:?}", variant)}), &sym, detail, tags);
+                }
             }
         }
         if qi % 1500 == 1 {
@@ -859,7 +2007,7 @@ fn run(ctx: &Ctx) -> ShardOut {
         }
     }
     // term matrix
-    for (text, token) in term_matrix() {
+    for TermCase { text, token, shape } in term_cases() {
         idx += 1;
         if !ctx.mine(idx) {
             continue;
@@ -870,10 +2018,46 @@ fn run(ctx: &Ctx) -> ShardOut {
         record_totality(&mut out, ctx, "term_matrix", &text);
         if let Err((sym, detail)) = term_matrix_one(&text, &token) {
             out.fail(json!({"family": "term_matrix", "input": text, "token": token}), &sym, detail, vec!["family=term_matrix".into(), format!("token={}", token)]);
+        } else if let Err((sym, detail)) = expected_tree_one(&text, &term_expected(shape, &token)) {
+            // round 3: the whole tree, not only "the token occurs somewhere"
+            out.fail(json!({"family": "term_matrix", "input": text, "token": token}), &sym, detail, vec!["family=term_matrix".into(), "clause=exact_tree".into(), format!("shape={:?}", shape), format!("token={}", token)]);
+        }
+        out.count("term_matrix_exact_tree_cases", 1);
+    }
+    // round 3: operator precedence
+    for (pi, (text, want)) in precedence_matrix().iter().enumerate() {
+        idx += 1;
+        if !ctx.mine(idx) {
+            continue;
+        }
+        out.evaluations += 1;
+        out.count("precedence_cases", 1);
+        if has_unparenthesised_mix(want) {
+            out.count("precedence_cases_and_under_or_without_parentheses", 1);
+        }
+        out.nontrivial(text);
+        if let Err((sym, detail)) = precedence_one(text, want) {
+            out.fail(json!({"family": "precedence", "index": pi, "input": text}), &sym, detail, vec!["family=precedence".into(), format!("mixed_unparenthesised={}", has_unparenthesised_mix(want))]);
+        }
+    }
+    // round 3: hand-written forms
+    for (fi, (text, expected)) in forms_matrix().iter().enumerate() {
+        idx += 1;
+        if !ctx.mine(idx) {
+            continue;
+        }
+        out.evaluations += 1;
+        out.count("forms_cases", 1);
+        out.nontrivial(text);
+        record_totality(&mut out, ctx, "forms", text);
+        if let Err((sym, detail)) = expected_tree_one(text, expected) {
+            out.fail(json!({"family": "forms", "index": fi, "input": text}), &sym, detail, vec!["family=forms".into(), format!("form={}", fi)]);
         }
     }
     if ctx.shard == 0 {
-        for (ui, u) in ugen::valid_updates().iter().enumerate() {
+        let updates = all_updates();
+        out.count("faithfulness_updates", updates.len() as u64);
+        for (ui, u) in updates.iter().enumerate() {
             if !update_is_syntactically_valid(u) {
                 continue;
             }
@@ -883,6 +2067,25 @@ fn run(ctx: &Ctx) -> ShardOut {
                 out.nontrivial(&text);
                 if let Err((sym, detail)) = faithful_update(u, layout) {
                     out.fail(json!({"family": "faithful_update", "uindex": ui, "layout": format!("{:?}", layout), "text": text}), &sym, detail, vec![format!("layout={:?}", layout), "family=faithfulness_update".into()]);
+                }
+            }
+            // round 3: quad-block abbreviations (None) and the token-rewriting variants
+            let canonical = print_update(u, Layout::Canonical);
+            for variant in std::iter::once(None).chain(UPDATE_VARIANTS.iter().copied().map(Some)) {
+                out.evaluations += 1;
+                let vname = variant.map_or("AbbrevQuads".to_string(), |v| format!("{:?}", v));
+                match faithful_update_variant(u, variant) {
+                    Ok(None) => out.count("variant_not_applicable", 1),
+                    Ok(Some(text)) => {
+                        out.count(&format!("update_variant_{}_cases", vname), 1);
+                        if text != canonical {
+                            out.count(&format!("update_variant_{}_new_texts", vname), 1);
+                            out.nontrivial(&text);
+                        }
+                    }
+                    Err((sym, detail)) => {
+                        out.fail(json!({"family": "faithful_variant_update", "uindex": ui, "variant": vname}), &sym, detail, vec![format!("variant={}", vname), "family=faithfulness_update_variant".into()]);
+                    }
                 }
             }
         }
@@ -899,7 +2102,8 @@ fn replay(ctx: &Ctx, case: &Value) -> ShardOut {
     match case["family"].as_str().unwrap_or("") {
         "faithful_select" => {
             let scope = if case["scope"].as_str() == Some("Thorough") { Scope::Thorough } else { Scope::Quick };
-            let qs = qgen::queries(scope);
+            let mut qs = qgen::queries(scope);
+            qs.extend(extra_queries());
             let layout = layout_of(case["layout"].as_str().unwrap_or(""));
             let want = case["text"].as_str().unwrap_or("");
             match qs.iter().find(|s| print_select(s, layout) == want) {
@@ -918,11 +2122,71 @@ fn replay(ctx: &Ctx, case: &Value) -> ShardOut {
         "faithful_update" => {
             let layout = layout_of(case["layout"].as_str().unwrap_or(""));
             let ui = case["uindex"].as_u64().unwrap_or(0) as usize;
-            if let Some(u) = ugen::valid_updates().get(ui) {
+            if let Some(u) = all_updates().get(ui) {
                 out.evaluations += 1;
                 if let Err((sym, detail)) = faithful_update(u, layout) {
                     out.fail(case.clone(), &sym, detail, vec![format!("layout={:?}", layout), "family=faithfulness_update".into()]);
                 }
+            } else {
+                out.machinery_errors.push("replay: update not found".into());
+            }
+        }
+        "faithful_variant_select" => {
+            let scope = if case["scope"].as_str() == Some("Thorough") { Scope::Thorough } else { Scope::Quick };
+            let mut qs = qgen::queries(scope);
+            qs.extend(extra_queries());
+            let want = case["canonical"].as_str().unwrap_or("");
+            match (qs.iter().find(|s| print_select(s, Layout::Canonical) == want), variant_of(case["variant"].as_str().unwrap_or(""))) {
+                (Some(s), Some(variant)) => {
+                    out.evaluations += 1;
+                    if let Err((sym, detail)) = faithful_select_variant(s, variant) {
+                        let mut tags = super::c01::query_tags(s);
+                        tags.push(format!("variant={:?}", variant));
+                        tags.push("family=faithfulness_variant".into());
+                        out.fail(case.clone(), &sym, detail, tags);
+                    }
+                }
+                _ => out.machinery_errors.push("replay: query or variant not found".into()),
+            }
+        }
+        "faithful_variant_update" => {
+            let ui = case["uindex"].as_u64().unwrap_or(0) as usize;
+            let vname = case["variant"].as_str().unwrap_or("").to_string();
+            let variant = variant_of(&vname);
+            match all_updates().get(ui) {
+                Some(u) if variant.is_some() || vname == "AbbrevQuads" => {
+                    out.evaluations += 1;
+                    if let Err((sym, detail)) = faithful_update_variant(u, variant) {
+                        out.fail(case.clone(), &sym, detail, vec![format!("variant={}", vname), "family=faithfulness_update_variant".into()]);
+                    }
+                }
+                _ => out.machinery_errors.push("replay: update or variant not found".into()),
+            }
+        }
+        "precedence" => {
+            let input = case["input"].as_str().unwrap_or("");
+            match precedence_matrix().into_iter().find(|(t, _)| t == input) {
+                Some((text, want)) => {
+                    out.evaluations += 1;
+                    if let Err((sym, detail)) = precedence_one(&text, &want) {
+                        out.fail(case.clone(), &sym, detail, vec!["family=precedence".into(), format!("mixed_unparenthesised={}", has_unparenthesised_mix(&want))]);
+                    }
+                }
+                None => out.machinery_errors.push("replay: precedence case not found".into()),
+            }
+        }
+        "forms" => {
+            let input = case["input"].as_str().unwrap_or("");
+            match forms_matrix().into_iter().enumerate().find(|(_, (t, _))| t == input) {
+                Some((fi, (text, expected))) => {
+                    out.evaluations += 1;
+                    record_totality(&mut out, ctx, "forms", &text);
+                    if let Err((sym, detail)) = expected_tree_one(&text, &expected) {
+                        out.fail(case.clone(), &sym, detail, vec!["family=forms".into(), format!("form={}", fi)]);
+                    }
+                }
+                // a totality failure of a forms text is recorded with its input only
+                None => record_totality(&mut out, ctx, "forms", input),
             }
         }
         "term_matrix" => {
@@ -932,6 +2196,10 @@ fn replay(ctx: &Ctx, case: &Value) -> ShardOut {
             record_totality(&mut out, ctx, "term_matrix", &input);
             if let Err((sym, detail)) = term_matrix_one(&input, &token) {
                 out.fail(case.clone(), &sym, detail, vec!["family=term_matrix".into(), format!("token={}", token)]);
+            } else if let Some(c) = term_cases().into_iter().find(|c| c.text == input) {
+                if let Err((sym, detail)) = expected_tree_one(&input, &term_expected(c.shape, &token)) {
+                    out.fail(case.clone(), &sym, detail, vec!["family=term_matrix".into(), "clause=exact_tree".into(), format!("shape={:?}", c.shape), format!("token={}", token)]);
+                }
             }
         }
         "escape_matrix" => {
